@@ -3,6 +3,7 @@ import Pdpy11.Model.Insn
 import Pdpy11.Model.Directive
 import Pdpy11.Model.Defs
 import Pdpy11.Model.State
+import Pdpy11.Model.Await
 /-
 C08  Every input ends in a result or a reported error.
 
@@ -409,3 +410,222 @@ theorem loud_compileInsn (e : InsnG) (he : e ∈ Gen.opcodes) (ops : List Operan
 
 
 end Pdpy11.Props.C08
+
+
+/-
+The stack of values being computed (`deferred.Awaiting`), on graphs of thunks that may be cyclic
+(`Model/Await.lean`): every wait ends — `wait_ends`, for every store and expression, with a fuel
+fixed by the sizes alone, so the fuel is an artefact of the definition and not an assumption;
+a cycle is reported only when some thunk really depends on itself (`cycle_sound`), never on a
+graph that has a rank (`acyclic_no_cycle`); and an answer other than `cycle` is the answer of
+the engine without a stack (`agrees_with_plain`).  This is the value-level reason why
+"never loops forever" holds for lazily resolved values.
+-/
+namespace Pdpy11.Props.C08.Await
+open Pdpy11.Model.Thunk Pdpy11.Model.Await
+
+/-- `i` depends on `j`: one or more steps from a thunk to a thunk its body mentions -/
+inductive Path (s : Store) : Nat → Nat → Prop
+  | edge {i j : Nat} {t : Th} : s.thunks[i]? = some t → j ∈ refs t.fn → Path s i j
+  | step {i j k : Nat} {t : Th} : Path s i j → s.thunks[j]? = some t → k ∈ refs t.fn → Path s i k
+
+/-- the stack discipline: everything on the stack depends on everything the expression in hand mentions -/
+def Chain (s : Store) (st : List Nat) (e : E) : Prop := ∀ j ∈ st, ∀ k ∈ refs e, Path s j k
+
+theorem cycle_sound_aux (s : Store) (f : Nat) : ∀ (st : List Nat) (e : E), Chain s st e →
+    evalAw s st f e = .cycle → ∃ j, Path s j j := by
+  induction f with
+  | zero => intro st e _ h; simp [evalAw] at h
+  | succ f ih =>
+    intro st e hc h
+    cases e with
+    | lit k => simp [evalAw] at h
+    | prom i =>
+      simp only [evalAw] at h
+      split at h <;> simp at h
+    | thunk j =>
+      simp only [evalAw] at h
+      split at h
+      · rename_i hin
+        have hj : j ∈ st := by simpa using hin
+        exact ⟨j, hc j hj j (by simp [refs])⟩
+      · rename_i hnin
+        split at h
+        · simp at h
+        · rename_i t ht
+          apply ih (j :: st) t.fn _ h
+          intro j' hj' k hk
+          rcases List.mem_cons.mp hj' with rfl | hj'
+          · exact Path.edge ht hk
+          · exact Path.step (hc j' hj' j (by simp [refs])) ht hk
+    | add a b =>
+      have hca : Chain s st a := fun j hj k hk => hc j hj k (by simp [refs, hk])
+      have hcb : Chain s st b := fun j hj k hk => hc j hj k (by simp [refs, hk])
+      simp only [evalAw] at h
+      split at h
+      · split at h
+        · simp at h
+        · rename_i r hr
+          exact ih st b hcb h
+      · rename_i r hr
+        exact ih st a hca h
+
+/-- a cycle is reported only when there is one: some thunk depends on itself -/
+theorem cycle_sound (s : Store) (f : Nat) (e : E) (h : evalAw s [] f e = .cycle) : ∃ j, Path s j j :=
+  cycle_sound_aux s f [] e (by intro j hj; simp at hj) h
+
+theorem path_rank (s : Store) (rk : Nat → Nat)
+    (hac : ∀ i t j, s.thunks[i]? = some t → j ∈ refs t.fn → rk j < rk i) {i j : Nat} (p : Path s i j) : rk j < rk i := by
+  induction p with
+  | edge ht hk => exact hac _ _ _ ht hk
+  | step _ ht hk ih => exact Nat.lt_trans (hac _ _ _ ht hk) ih
+
+/-- on a graph without cycles (a rank that falls along every dependence) no wait ever reports one -/
+theorem acyclic_no_cycle (s : Store) (rk : Nat → Nat)
+    (hac : ∀ i t j, s.thunks[i]? = some t → j ∈ refs t.fn → rk j < rk i) (f : Nat) (e : E) :
+    evalAw s [] f e ≠ .cycle := by
+  intro h
+  obtain ⟨j, p⟩ := cycle_sound s f e h
+  exact Nat.lt_irrefl _ (path_rank s rk hac p)
+
+/-- how many of the first `n` thunks are not on the stack -/
+def free (st : List Nat) (n : Nat) : Nat := ((List.range n).filter (fun i => !st.contains i)).length
+
+theorem free_nil (n : Nat) : free [] n = n := by
+  simp only [free, List.contains_nil, Bool.not_false]
+  rw [List.filter_eq_self.mpr (by simp)]; simp
+
+theorem free_cons_le (j : Nat) (st : List Nat) (n : Nat) : free (j :: st) n ≤ free st n := by
+  induction n with
+  | zero => simp [free]
+  | succ n ih =>
+    simp only [free, List.range_succ, List.filter_append, List.length_append] at *
+    have : (List.filter (fun i => !(j :: st).contains i) [n]).length ≤ (List.filter (fun i => !st.contains i) [n]).length := by
+      by_cases h1 : st.contains n <;> by_cases h2 : n = j <;> simp [List.filter, h2]
+    omega
+
+theorem free_cons_lt (j : Nat) (st : List Nat) (n : Nat) (hj : j < n) (hn : st.contains j = false) :
+    free (j :: st) n + 1 ≤ free st n := by
+  induction n with
+  | zero => omega
+  | succ n ih =>
+    by_cases hjn : j = n
+    · subst hjn
+      have h0 := free_cons_le j st j
+      simp only [free, List.range_succ, List.filter_append, List.length_append] at *
+      have h1 : (List.filter (fun i => !(j :: st).contains i) [j]).length = 0 := by simp [List.filter]
+      have hn' : j ∉ st := by simpa using hn
+      have h2 : (List.filter (fun i => !st.contains i) [j]).length = 1 := by simp [List.filter, hn']
+      omega
+    · have hlt : j < n := by omega
+      have h0 := ih hlt
+      simp only [free, List.range_succ, List.filter_append, List.length_append] at *
+      have : (List.filter (fun i => !(j :: st).contains i) [n]).length ≤ (List.filter (fun i => !st.contains i) [n]).length := by
+        by_cases h1 : st.contains n <;> by_cases h2 : n = j <;> simp [List.filter, h2]
+      omega
+
+theorem esize_pos (e : E) : 0 < esize e := by cases e <;> simp [esize]
+
+/-- the stack makes every wait end, whatever the graph: the fuel below is never used up -/
+theorem ends_aux (s : Store) (M : Nat) (hM : ∀ (j : Nat) (t : Th), s.thunks[j]? = some t → esize t.fn ≤ M) (f : Nat) :
+    ∀ (st : List Nat) (e : E), esize e + free st s.thunks.length * (M + 1) ≤ f → evalAw s st f e ≠ .fuel := by
+  induction f with
+  | zero => intro st e h; have := esize_pos e; omega
+  | succ f ih =>
+    intro st e h
+    cases e with
+    | lit k => simp [evalAw]
+    | prom i => simp only [evalAw]; split <;> simp
+    | thunk j =>
+      simp only [evalAw]
+      split
+      · simp
+      · rename_i hnin
+        split
+        · simp
+        · rename_i t ht
+          have hjn : j < s.thunks.length := by
+            rcases Nat.lt_or_ge j s.thunks.length with h' | h'
+            · exact h'
+            · rw [List.getElem?_eq_none h'] at ht; cases ht
+          have hfree := free_cons_lt j st s.thunks.length hjn (by simpa using hnin)
+          have hsz := hM j t ht
+          apply ih
+          have hmul := Nat.mul_le_mul_right (M + 1) hfree
+          rw [Nat.add_mul] at hmul
+          simp only [esize] at h
+          generalize free (j :: st) s.thunks.length * (M + 1) = X at *
+          generalize free st s.thunks.length * (M + 1) = Y at *
+          omega
+    | add a b =>
+      simp only [esize] at h
+      have ha := ih st a (by omega)
+      have hb := ih st b (by omega)
+      simp only [evalAw]
+      split
+      · split
+        · simp
+        · rename_i r hr hnv
+          exact hb
+      · rename_i r hr
+        exact ha
+
+/-- every wait ends, on every graph of thunks (cyclic or not), within a fuel that depends only on sizes -/
+theorem wait_ends (s : Store) (M : Nat) (hM : ∀ (j : Nat) (t : Th), s.thunks[j]? = some t → esize t.fn ≤ M) (e : E) :
+    evalAw s [] (esize e + s.thunks.length * (M + 1)) e ≠ .fuel :=
+  ends_aux s M hM _ [] e (by simp [free_nil])
+
+/-- what the stack does not change: an answer that is not `cycle` is the answer of the engine without a stack -/
+theorem agrees_with_plain (s : Store) (f : Nat) : ∀ (st : List Nat) (e : E),
+    (∀ v, evalAw s st f e = .value v → evalPlain s f e = .value v) ∧
+    (evalAw s st f e = .notReady → evalPlain s f e = .notReady) := by
+  induction f with
+  | zero => intro st e; simp [evalAw]
+  | succ f ih =>
+    intro st e
+    cases e with
+    | lit k => simp [evalAw, evalPlain]
+    | prom i => simp only [evalAw, evalPlain]; cases hp : promVal s i <;> simp
+    | thunk j =>
+      simp only [evalAw, evalPlain]
+      split
+      · simp
+      · cases ht : s.thunks[j]? with
+        | none => simp
+        | some t => exact ih (j :: st) t.fn
+    | add a b =>
+      have ha := ih st a
+      have hb := ih st b
+      simp only [evalAw, evalPlain]
+      constructor
+      · intro v h
+        split at h
+        · rename_i x hx
+          rw [ha.1 x hx]
+          split at h
+          · rename_i y hy
+            rw [hb.1 y hy]; simpa using h
+          · rename_i r hr
+            rw [hb.1 v h] at *
+            exact absurd h (by intro h'; exact hr v h')
+        · rename_i r hr
+          exact absurd h (by intro h'; exact hr v h')
+      · intro h
+        split at h
+        · rename_i x hx
+          rw [ha.1 x hx]
+          split at h
+          · simp at h
+          · rename_i r hr
+            rw [hb.2 h]
+        · rename_i r hr
+          rw [ha.2 h]
+
+/-- the premises are met and the conclusions are not empty: `a = b + 1`, `b = a` is reported, and it is a cycle -/
+def twoCycle : Store := ⟨[none], [⟨.add (.thunk 1) (.lit 1), none, none⟩, ⟨.thunk 0, none, none⟩], 0⟩
+example : evalAw twoCycle [] 10 (.thunk 0) = .cycle := by decide
+example : Path twoCycle 0 0 :=
+  Path.step (j := 1) (t := ⟨.thunk 0, none, none⟩) (Path.edge (j := 1) (t := ⟨.add (.thunk 1) (.lit 1), none, none⟩) rfl (by decide)) rfl (by decide)
+example : evalAw twoCycle [] 10 (.add (.prom 0) (.thunk 0)) = .notReady := by decide
+
+end Pdpy11.Props.C08.Await
